@@ -1561,6 +1561,9 @@ def _link_oracle(cfg: dict, level: str) -> Tuple[Optional[List[Tuple]], Optional
             return None, "nested model: " + str(why)
         out.append(("nested",))
         src_fields = src_fields + ["n"]
+    if level == "top" and cfg.get("dict_field"):
+        # Dict[str, int] -> Dict[str, int]: converted element-wise (a coercer closure), never handed over
+        out.append(("field", "m", True))
     for name, optional in dst_fields:
         chosen: Optional[Tuple] = None
         for i, it in enumerate(cfg["recipe"]):
@@ -1613,6 +1616,8 @@ def _link_oracle(cfg: dict, level: str) -> Tuple[Optional[List[Tuple]], Optional
                 return None, f"optional field {name} unlinked and the default policy forbids it"
             out.append(("skipped",))
             continue
+        if cfg.get("same_type_coercer") and chosen[0] in ("field", "param"):
+            chosen = (chosen[0], chosen[1], True)      # coercer(int, int, f) applies to every int -> int link
         out.append(chosen)
     return out, None
 
@@ -1642,8 +1647,8 @@ def _describe_arg(e: ast.expr, ns: Dict[str, dict], n_params: int) -> Tuple:
         if len(e.args) == 2 and not e.keywords and isinstance(e.args[1], ast.Name) and e.args[1].id == "ctx":
             b = base(e.args[0])
             if b is not None:
-                if "coerce_SrcInner_to_DstInner" in d.get("repr", "") and b == ("field", "n"):
-                    return ("nested",)
+                if "coerce_SrcInner_to_DstInner" in d.get("repr", "") and b[0] in ("field", "param"):
+                    return ("nested", b)
                 return b + (True,)
     try:
         return ("const", _eval_literal(norm(e)))
@@ -1710,7 +1715,8 @@ def c13_pipeline_checks(repo: Repo, tier: str, res: CheckResult, seed: int) -> N
             if not (isinstance(call.func, ast.Name) and dname in ns.get(call.func.id, {}).get("repr", "")):
                 bad("PIPE.constructor", norm(call.func), f"the result is not built by the destination class {dname}")
                 continue
-            dst_names = (["n"] if level == "top" and cfg.get("inner") else []) + [x[0] for x in (cfg if level == "top" else cfg["inner"])["dst_fields"]]
+            dst_names = (["n"] if level == "top" and cfg.get("inner") else []) + (["m"] if level == "top" and cfg.get("dict_field") else []) \
+                + [x[0] for x in (cfg if level == "top" else cfg["inner"])["dst_fields"]]
             got: Dict[str, Tuple] = {}
             for i, a in enumerate(call.args):
                 if i < len(dst_names):
@@ -1723,7 +1729,10 @@ def c13_pipeline_checks(repo: Repo, tier: str, res: CheckResult, seed: int) -> N
             for nm, w in zip(dst_names, want):
                 if w[0] == "skipped":
                     continue
-                if w[0] == "func":
+                if w[0] == "nested":
+                    # the nested source model: the field `n` of the source, or the converter parameter `n`
+                    exp[nm] = ("nested", ("param", cfg["params"].index("n")) if cfg.get("inner_param") else ("field", "n"))
+                elif w[0] == "func":
                     exp[nm] = ("func", w[1], [("field?",)] + [tuple(x) for x in w[2]], sorted((k, tuple(v)) for k, v in w[3]))
                 else:
                     exp[nm] = tuple(w)
